@@ -640,5 +640,11 @@ func (r *resolver) resolveRef(rs *Resolved, s *Schema, ref string) (_ *Schema, d
 	}
 	// frag is a JSON Pointer.
 	s, err = dereferenceJSONPointer(referencedSchema, frag)
+	if err == nil && rs.resolvedInfos[s] == nil {
+		// The pointer leads to a *Schema held by a keyword whose value is not a schema
+		// ("examples", "enum", "default", ...) in a Schema built in Go. It is not a
+		// subschema: it was neither checked nor resolved.
+		return nil, "", fmt.Errorf("JSON Pointer %q does not refer to a subschema", frag)
+	}
 	return s, "", err
 }
